@@ -336,6 +336,38 @@ func c07Gen(g *core.Gen) {
 			}
 		}
 	}
+	// rows e = 65535/q (q = 3, 5, 17, 257): on columns whose generator exponents agree modulo q, row e is proportional to
+	// row 0 and row e+1 to row 1. 3-erasures on three such columns with rows {0,e,e+1}, {0,1,e+1}, {1,e,e+1}, {0,1,e}:
+	// elimination meets a zero pivot, swaps, and then finds (or does not find) a zero column - singular systems right
+	// after a row swap, which the small codes never produce
+	{
+		const dQ = 40
+		var ns []int
+		for n := 1; len(ns) < dQ; n++ {
+			if n%3 != 0 && n%5 != 0 && n%17 != 0 && n%257 != 0 {
+				ns = append(ns, n)
+			}
+		}
+		for _, qe := range [][2]int{{3, 21845}, {5, 13107}, {17, 3855}, {257, 255}} {
+			q, e := qe[0], qe[1]
+			groups := map[int][]int{}
+			for idx, n := range ns {
+				groups[n%q] = append(groups[n%q], idx)
+			}
+			for cls := 0; cls < q; cls++ {
+				cols := groups[cls]
+				if len(cols) < 3 {
+					continue
+				}
+				for a := 0; a+2 < len(cols) && a < 3; a++ {
+					tri := []int{cols[a], cols[a+1], cols[len(cols)-1]}
+					for _, rows := range [][]int{{0, e, e + 1}, {0, 1, e + 1}, {1, e, e + 1}, {0, 1, e}, {0, e, e + 2}} {
+						g.Emit(&c07Case{Kind: "explicit", Coder: "vandermonde", D: dQ, P: e + 3, MissD: tri, AvailP: rows, Len: 4, G: 1 + a%2})
+					}
+				}
+			}
+		}
+	}
 	g.Emit(&c07Case{Kind: "limits"})
 	// a slice of the small grid on the non-SSSE3 dispatch path (shards long enough for the bulk kernels)
 	for _, kind := range []string{"cauchy", "vandermonde"} {
@@ -545,7 +577,7 @@ func init() {
 	core.Register(&core.Prop{
 		ID:    "C07",
 		Level: "model_checking",
-		Rule: "bounded-exhaustive erasure patterns: both coders x every (d<=6,p<=5) (thorough d<=8,p<=6) x EVERY subset of missing data shards x EVERY subset of missing parity shards x shard length {2,4,14,16,18,32,34,66} x goroutines {1,2,3,5}; Vandermonde parity also compared with the reference sum; structured large code (140,260): 2-erasures with only parity rows {0,e} available for every e (contains the construction's singular pairs), and 3-erasures built on every column pair whose 2x2 minor vanishes (zero pivots, i.e. row swaps during elimination) x every third column x three row sets; tight patterns on (8,12),(5,12),(3,14) (thorough more): every k-subset of missing data x every k-subset of surviving parity; Cauchy (140,20); the documented limits (incl. 32768 / 32767 / 257 / 256 data shards with 3 parity rows and 65535 parity rows for 1, 3 and 5 data shards: the highest rows are compared with the definition and used for reconstruction). " +
+		Rule: "bounded-exhaustive erasure patterns: both coders x every (d<=6,p<=5) (thorough d<=8,p<=6) x EVERY subset of missing data shards x EVERY subset of missing parity shards x shard length {2,4,14,16,18,32,34,66} x goroutines {1,2,3,5}; Vandermonde parity also compared with the reference sum; structured large code (140,260): 2-erasures with only parity rows {0,e} available for every e (contains the construction's singular pairs), and 3-erasures built on every column pair whose 2x2 minor vanishes (zero pivots, i.e. row swaps during elimination) x every third column x three row sets; 3-erasures on columns that agree modulo q under rows 65535/q and neighbours (q = 3, 5, 17, 257; singular systems met right after a row swap); tight patterns on (8,12),(5,12),(3,14) (thorough more): every k-subset of missing data x every k-subset of surviving parity; Cauchy (140,20); the documented limits (incl. 32768 / 32767 / 257 / 256 data shards with 3 parity rows and 65535 parity rows for 1, 3 and 5 data shards: the highest rows are compared with the definition and used for reconstruction). " +
 			"Oracle: too few parity => NotEnoughParityShardsError; Cauchy always exact; Vandermonde exact iff the reference determinant of (lowest available rows x missing columns) != 0, else error or exact; nil => exact; supplied data shards unchanged; the shard lists are windows into longer lists, whose entries behind the window must not change; whenever the highest parity shards are unavailable the call is repeated with the parity list cut off behind the last available shard, as a window with non-nil entries behind it, and must give the same outcome. non-trivial = every case (all contain reconstructions)",
 		Assumptions: []string{"the statement does not constrain supplied parity shards; they are not compared"},
 		NewCase:     func() interface{} { return &c07Case{} },
